@@ -699,6 +699,10 @@ inline int cmpKeys(const RankKey& a, const RankKey& b, const std::string& plugin
     ld tol = std::max(tolAbs, std::max(fabsl(x), fabsl(y)) * 0x1p-40L);
     if (i == 0 && plugin == "kill_by_memory_size_or_growth")
       tol = 0; // phase
+    // growth ratios are single-precision in the implementation; differences
+    // below float resolution are treated as rounding (ties)
+    if (i == 1 && plugin == "kill_by_memory_size_or_growth" && a.key[0] == 1)
+      tol = std::max(fabsl(x), fabsl(y)) * 0x1p-20L;
     if (fabsl(x - y) <= tol)
       continue;
     return x > y ? 1 : -1;
